@@ -59,6 +59,13 @@ def gen_spec(rng, fmt):
     spec = {'fmt': fmt, 'nx': rng.randrange(1, 6), 'ny': rng.randrange(1, 6),
             'nz': rng.randrange(1, 4), 'nt': rng.randrange(1, 6),
             'sdate': sdate, 'stime': float(stime)}
+    if rng.random() < 0.12:
+        # a long file on a small grid: several calendar days of hourly steps
+        spec['nt'] = rng.choice([26, 49, 60])
+        spec['nx'] = rng.randrange(2, 4)
+        spec['ny'] = rng.randrange(2, 4)
+        spec['nz'] = rng.randrange(1, 3)
+        spec['sdate'] = rng.choice([2002154, 2004059, 2011120])
     if fmt == 'uamiv':
         spec['species'] = rng.sample(['O3', 'NO2', 'CO', 'PAR', 'ISOP', 'A1B2C3D4E5'],
                                      rng.randrange(1, 5))
@@ -144,6 +151,7 @@ class State(object):
         self.accepted = None
         self.todo = 'mk'
         self.n = 0
+        self.replaced = False
         self.stats = {'evaluations': 0, 'nontrivial': False, 'accesses': 0,
                       'record_reader_rejects': {}, 'files': 0, 'accepted_files': 0,
                       'raw_record_reads': 0, 'after_close': 0, 'by_format': {},
@@ -173,21 +181,37 @@ def gen_op(rng, st):
     k = rng.randrange(100)
     sel = rng.choice([['all'], ['all'], ['t', rng.randrange(spec['nt'])],
                       ['tk', rng.randrange(spec['nt']), rng.randrange(max(1, spec['nz']))]])
-    if k < 40:
+    if k >= 92 and not st.replaced:
+        st.replaced = True
+        return {'op': 'replace', 'spec': gen_spec(rng, spec['fmt'])}
+    if k < 38:
         return {'op': 'var', 'reader': rng.choice(['m', 'r', 'r']),
                 'key': rng.choice(keys), 'sel': sel}
-    if k < 65 and spec['fmt'] != 'temperature':
+    if k < 62 and spec['fmt'] != 'temperature':
         return {'op': 'rec', 'how': rng.choice(['seekandread', 'seek+read']),
                 't': rng.randrange(spec['nt']), 'k': rng.randrange(1, spec['nz'] + 1),
                 'j': rng.randrange(4)}
-    if k < 77:
+    if k < 72:
         return {'op': 'times', 'reader': rng.choice(['m', 'r'])}
-    if k < 85:
+    if k < 78:
         return {'op': 'dims'}
-    if k < 90:
+    if k < 82:
         return {'op': 'collect'}
-    if k < 95 and st.n > c['steps'] // 2:
+    if k < 86 and st.n > c['steps'] // 2:
         return {'op': 'close_record'}
+    if k < 92:
+        # another file of the same layout (same grid and counts, other species
+        # order / other values) is opened in between
+        sib = dict(spec)
+        if 'species' in sib:
+            sp = list(sib['species'])
+            rng.shuffle(sp)
+            if len(sp) > 1 and sp == sib['species']:
+                sp = sp[1:] + sp[:1]
+            sib['species'] = sp
+        sib['stime'] = float((int(spec['stime']) + 1) % 24)
+        return {'op': 'sibling', 'spec': sib, 'reader': rng.choice(['m', 'r', 'mr'])}
+
     return {'op': 'var', 'reader': 'r', 'key': rng.choice(keys), 'sel': sel}
 
 
@@ -340,8 +364,9 @@ def _apply(st, op):
         return open_reader(fam, fmt, path, spec)
 
     def viol(inv, detail, **sig):
-        full = dict(sig, format=fmt, crosses_year_end=_crosses_year_end(spec),
-                    cells_le_3=spec['nx'] * spec['ny'] <= 3, invariant=inv)
+        sp = sig.pop('about', None) or spec       # the file the finding is about
+        full = dict(sig, format=fmt, crosses_year_end=_crosses_year_end(sp),
+                    cells_le_3=sp['nx'] * sp['ny'] <= 3, invariant=inv)
         kn = w.known_match(full)
         if kn is not None:
             kh = st.stats['known_hits'].setdefault(kn, {'n': 0, 'example': None})
@@ -472,6 +497,74 @@ def _apply(st, op):
     elif o == 'collect':
         seams.GC.collect(2)
         w.fault('gc_between')
+    elif o == 'sibling':
+        sp2 = op['spec']
+        p2 = w.path('sibling.' + fmt)
+        with open(p2 + '.tmp', 'wb') as fh:
+            fh.write(build(sp2))
+        os.replace(p2 + '.tmp', p2)
+        w.fault('sibling_file_opened')
+        res = {}
+        for fam in op['reader']:
+            try:
+                g, _ = _guard(lambda: open_reader(fam, fmt, p2, sp2))
+                res[fam] = {k: np.array(g.variables[k][...]) for k in data_keys(g)}
+            except Timeout:
+                viol('reader-does-not-terminate', 'sibling file', family=fam, about=sp2)
+            except BaseException as e:
+                res[fam] = None
+        # the sibling itself must be read like a fresh process would read it:
+        # compare with the producer's content through the OTHER family, fresh
+        for fam, got in res.items():
+            if got is None:
+                continue
+            other = 'r' if fam == 'm' else 'm'
+            try:
+                g2 = open_reader(other, fmt, p2, sp2)
+                exp = {k: np.array(g2.variables[k][...]) for k in data_keys(g2)}
+            except BaseException:
+                continue
+            for k in got:
+                if k in exp and not squeeze_eq(got[k], exp[k]):
+                    viol('readers-disagree',
+                         'second file of the same layout (%s): %s reader gives %s..., the other '
+                         'family %s...' % (k, fam, got[k].ravel()[:3].tolist(),
+                                           exp[k].ravel()[:3].tolist()),
+                         what='data-second-file', family=fam, about=sp2)
+    elif o == 'replace':
+        # the file at the SAME path is replaced by a different one and reopened
+        st.m = None
+        st.r = None
+        seams.GC.collect(2)
+        sp2 = op['spec']
+        with open(path + '.tmp', 'wb') as fh:
+            fh.write(build(sp2))
+        os.replace(path + '.tmp', path)
+        w.fault('file_replaced_at_same_path')
+        st.spec = sp2
+        st.r_closed = False
+        try:
+            st.m = open_reader('m', fmt, path, sp2)
+            st.r, _ = _guard(lambda: open_reader('r', fmt, path, sp2))
+            # full read of both must succeed for the file to count as accepted
+            for fam, f in (('m', st.m), ('r', st.r)):
+                _guard(lambda: [np.array(f.variables[k][...]) for k in data_keys(f)])
+                _guard(lambda: times_of(fam, f, fmt))
+            st.keys = [k for k in data_keys(st.m) if k in list(st.r.variables.keys())]
+        except Timeout:
+            st.accepted = False
+            return {'note': 'replacement not readable in time (not accepted)'}
+        except BaseException as e:
+            st.accepted = False
+            return {'note': 'replacement not accepted: ' + type(e).__name__}
+        # dimension lengths must follow the file, not the path
+        for dk in ('TSTEP', 'LAY', 'ROW', 'COL'):
+            if dk in st.m.dimensions and dk in st.r.dimensions:
+                a, b = len(st.m.dimensions[dk]), len(st.r.dimensions[dk])
+                if a != b:
+                    viol('readers-disagree', 'after the file at the same path was replaced: '
+                         'dimension %s: memmap %d, record %d' % (dk, a, b),
+                         what='dimension', family='-', about=sp2)
     elif o == 'close_record':
         if st.r is not None and not st.r_closed:
             try:
